@@ -70,7 +70,7 @@ def frames(chk, P, file_re, exceptions, floor):
     un = []
     for fn, e, kind, st, det in frame.scan(P, lambda f: bool(file_re.search(f))):
         site = "%s:%d" % (fn.file, e["line"])
-        key = "%s:%s:%s" % (fn.name.replace("SimTK::", ""), kind, (e.get("var") if kind in ("decl", "vecdecl", "diffdecl") else frame.sx_str(e["x"])[:60]))
+        key = "%s:%s:%s" % (fn.name.replace("SimTK::", ""), kind, (e.get("var") if kind in ("decl", "vecdecl", "diffdecl", "aliasdecl") else frame.sx_str(e["x"])[:60]))
         if st == "ok":
             n_ok += 1
             chk.ok("FRAME", key, site, det)
@@ -78,7 +78,8 @@ def frames(chk, P, file_re, exceptions, floor):
             n_un += 1
             un.append("%s %s" % (site.split("/")[-1], det))
         elif st == "bad":
-            ex = exceptions.get((fn.name, e.get("var") if kind in ("decl", "vecdecl", "diffdecl") else None))
+            ex = exceptions.get((fn.name, e.get("var") if kind in ("decl", "vecdecl", "diffdecl", "aliasdecl") else None)) or \
+                (exceptions.get((fn.name, frame.sx_str(e["x"])[:60])) if kind == "product" else None)
             if ex:
                 chk.ok("FRAME", key + ":tabled", site, ex)
             else:
